@@ -269,8 +269,10 @@ class Parser:
         elif pstate.is_next(_not):
             pstate.advance()
             from pymbolic.primitives import LogicalNot
+            # same operand precedence as the other prefix operators:
+            # 'not a**b' is not (a**b), which is also how it is printed
             left_exp = LogicalNot(
-                    self.parse_expression(pstate, _PREC_UNARY))
+                    self.parse_expression(pstate, _PREC_TIMES))
         elif pstate.is_next(_bitwisenot):
             pstate.advance()
             from pymbolic.primitives import BitwiseNot
